@@ -25,7 +25,7 @@ type timingCase struct {
 }
 
 func genTimingCase(t *rapid.T) timingCase {
-	c := timingCase{Kind: rapid.SampledFrom([]string{"read-deadline", "read-deadline", "data-vs-deadline", "data-vs-deadline", "flush-queue-full", "accept-shutdown", "silent-peer"}).Draw(t, "kind")}
+	c := timingCase{Kind: rapid.SampledFrom([]string{"read-deadline", "read-deadline", "data-vs-deadline", "data-vs-deadline", "deadline-then-none", "deadline-then-none", "flush-queue-full", "accept-shutdown", "silent-peer"}).Draw(t, "kind")}
 	c.Call = rapid.SampledFrom([]string{"ReadBytes", "Read", "Discard", "Peek", "ReadByte"}).Draw(t, "call")
 	c.DeadlineMs = rapid.SampledFrom([]int{-5, 0, 1, 5, 20, 60}).Draw(t, "dl")
 	c.OffsetUs = rapid.SampledFrom([]int{-2000, -500, -100, 0, 100, 500, 2000}).Draw(t, "off")
@@ -35,6 +35,9 @@ func genTimingCase(t *rapid.T) timingCase {
 	c.MemFd = rapid.Bool().Draw(t, "memfd")
 	if c.Kind == "data-vs-deadline" && c.DeadlineMs < 5 {
 		c.DeadlineMs = 5
+	}
+	if c.Kind == "deadline-then-none" {
+		c.DeadlineMs = rapid.SampledFrom([]int{1, 5, 20}).Draw(t, "dl2")
 	}
 	return c
 }
@@ -164,6 +167,102 @@ func timingRun(c timingCase, r *runCtx) {
 				return
 			}
 		}
+		r.NonTrivial()
+	case "deadline-then-none":
+		// a read that waited under a deadline (timed out, or got its data in time), then the deadline is cleared, then a read
+		// without deadline has to wait for its releasing event (data, peer close, local session close)
+		p := getPair(defaultPairCfg, r)
+		cs, err := p.c.OpenStream()
+		if err != nil {
+			harnessFail("OpenStream: %v", err)
+		}
+		defer func() {
+			cs.Close()
+			if !p.settle(500*time.Millisecond, r) {
+				dropPair(p)
+			}
+		}()
+		cs.BufferWriter().WriteBytes([]byte{1})
+		if err := cs.Flush(false); err != nil {
+			harnessFail("Flush: %v", err)
+		}
+		ss := pipeAccept(p, cs.StreamID(), r)
+		if ss == nil {
+			harnessFail("accept")
+		}
+		defer ss.Close()
+		ss.BufferReader().ReadBytes(1)
+		ss.BufferReader().ReleasePreviousRead()
+		need := 3
+		if c.Call == "ReadByte" {
+			need = 1
+		}
+		d := time.Duration(c.DeadlineMs) * time.Millisecond
+		ss.SetReadDeadline(time.Now().Add(d))
+		if c.Second {
+			// the first read gets its data before the deadline
+			go func() {
+				time.Sleep(d / 4)
+				cs.BufferWriter().WriteBytes([]byte{7, 8, 9})
+				cs.Flush(false)
+			}()
+		}
+		if n, err := blockingRead(ss, c.Call, need); err == nil {
+			if c.Call == "Peek" {
+				ss.BufferReader().Discard(n)
+			}
+			ss.BufferReader().ReleasePreviousRead()
+		} else if c.Second {
+			// the data lost the race against the deadline: wait for it, so that nothing is in flight for the read under test
+			ss.SetReadDeadline(time.Now().Add(e2Stall))
+			if _, err := ss.BufferReader().Peek(3); err != nil {
+				r.Violf("3 bytes flushed around a deadline never became readable: %v", err)
+				return
+			}
+		}
+		if c.WriteDlMs > 0 {
+			ss.SetDeadline(time.Time{})
+		} else {
+			ss.SetReadDeadline(time.Time{})
+		}
+		// whatever arrived late for the first read is drained, so that the next read really has to wait
+		time.Sleep(d + 2*time.Millisecond)
+		ss.pendingData.moveTo(ss.recvBuf)
+		if l := ss.recvBuf.Len(); l > 0 {
+			ss.BufferReader().Discard(l)
+			ss.BufferReader().ReleasePreviousRead()
+		}
+		release := []string{"data", "peer-close"}[c.OffsetUs&1]
+		if c.OffsetUs == 0 {
+			release = "peer-close"
+		}
+		ch := make(chan error, 1)
+		go func() {
+			_, err := blockingRead(ss, c.Call, need)
+			ch <- err
+		}()
+		time.Sleep(2 * time.Millisecond)
+		if release == "data" {
+			cs.BufferWriter().WriteBytes([]byte{4, 5, 6})
+			cs.Flush(false)
+		} else {
+			cs.Close()
+		}
+		select {
+		case err := <-ch:
+			if release == "data" && err != nil {
+				r.Violf("%s without deadline, released by its data, returned %v", c.Call, err)
+				return
+			}
+			if release == "peer-close" && err == nil {
+				r.Violf("%s without deadline returned data out of nothing when the peer closed", c.Call)
+				return
+			}
+		case <-time.After(timingSlack + time.Second):
+			r.Violf("%s without deadline (after an earlier read under a %v deadline, since cleared) is still blocked %v after its releasing event (%s)", c.Call, d, timingSlack+time.Second, release)
+			return
+		}
+		r.Label("released-by-" + release)
 		r.NonTrivial()
 	case "flush-queue-full":
 		cfg := defaultPairCfg
